@@ -991,8 +991,13 @@ class Crystal(object):
         :return Garray: array of G vectors that define the BZ, in Cartesian coordinates
         """
         # Start with a list of possible vectors; add those that define the BZ...
+        # A zone-bounding vector G is no longer than twice the covering radius of the reciprocal lattice, hence no longer than
+        # the sum of the lengths of the reciprocal cell vectors; its integer coefficients obey |n_i| <= |G| |a_i| / (2 pi).
+        # (+-3 is enough for reduced cells, but not for sheared cells that are kept as supplied with noreduce=True)
+        Gmax = sum(np.sqrt(np.dot(b, b)) for b in self.reciplatt.T)
+        nmax = [max(3, int(Gmax * np.sqrt(np.dot(a, a)) / (2. * np.pi))) for a in self.lattice.T]
         BZG = []
-        for nv in itertools.product(range(-3, 4), repeat = self.dim):
+        for nv in itertools.product(*[range(-n, n + 1) for n in nmax]):
             if all(n == 0 for n in nv): continue
             vec = np.dot(self.reciplatt, nv)
             if self.inBZ(vec, BZG, threshold=0): BZG.append(vec)
